@@ -196,7 +196,9 @@ func shallowCheckDependencies(c containerStore, pl paramList) error {
 	}
 
 	if len(err) > 0 {
-		return err
+		// A pointer keeps the errors that wrap this one comparable, as
+		// errors.Is requires.
+		return &err
 	}
 	return nil
 }
